@@ -282,6 +282,10 @@ def classify_email(ctx, v, optbits=0):
             add_violation(ctx, "C07", "TLD classification", case)
         else:
             add_violation(ctx, "C01", "address decision (tld_check on)", case)
+        if exp in range(1, 10) or got in range(1, 10) or exp in (-23, -26):
+            # a wrong class is also a wrong result code (C16) and, once the policy rejects it, a wrong reason (C15)
+            add_violation(ctx, "C16", "result code is not the TLD class of the domain", case)
+            add_violation(ctx, "C15", "reported TLD class / reason does not hold of the domain", case)
     elif w.startswith("extra strings"):
         add_violation(ctx, "C16", "EAV_EXTRA build: " + w, case)
     elif w in ("flag", "record"):
@@ -387,8 +391,28 @@ def c12(ctx):
                   "parts and addresses enumerated by MC_Local / MC_Email / MC_Ip / MC_Tld")
 
 
+def suite_idn(ctx, parts=(1, 2, 3), maxlabels=2, variants=("default",), prop="C10"):
+    for part in parts:
+        r = tlc_ok(ctx, "MC_Idn", "CONSTANTS\n  Part = %d\n  MaxLabels = %d\nINIT Init\nNEXT Next\nINVARIANT Inv\nCHECK_DEADLOCK FALSE\n" % (part, maxlabels))
+        sample_vectors(ctx, r["out"])
+        for var in variants:
+            b = build(ctx, var, 0)
+            res = replay(ctx, b, r["out"], "idn-%d" % part)
+            if var != "default":
+                monitor_violation(ctx, res, "executing IDN vectors on build %s" % var)
+            else:
+                crash_violation(ctx, res, ["C06", ctx.prop])
+            for v in res["viol"]:
+                case = {"domain": v["in"][:300], "text": vlib.bytes_to_text(v["in"][:120]), "mode": v["mode"], "tld_check": v["opts"],
+                        "expected": v["exp"], "got": v["got"], "converter_code_or_flags": v["model"]}
+                add_violation(ctx, "C10", v["what"], case)
+                add_violation(ctx, "C16", "result record differs between the two spellings of a domain: " + v["what"], case)
+            email_drift(ctx, res)
+
+
 def c16(ctx):
     q = ctx.quick()
+    suite_idn(ctx, (2, 3))
     # the EAV_EXTRA build: lpart / domain strings (and the same record pins) on the pool and bounded-exhaustive addresses
     suite_email(ctx, 2, 0, variants=("extra",))
     suite_email(ctx, 1, 4 if q else 6, variants=("extra",))
@@ -419,6 +443,8 @@ def c15(ctx):
     suite_object(ctx, 5 if q else 6, faults=True, small=True, graph=not q)
     suite_object(ctx, 6, faults=False, small=True, graph=False)     # long enough for: IDN error, refused setup, errstr
     suite_policy(ctx, 1)        # the error code recorded for every (mask, result code, mode)
+    suite_sweep(ctx, 2)         # "invalid UTF-8" only for ill-formed local parts
+    suite_idn(ctx, (2, 3))      # IDN error / domain codes given the converter's answers
     suite_recorded(ctx, *((800, 800, 80) if ctx.quick() else (6000, 6000, 300)))
     return finish(ctx, "model_checking",
                   "every code the model returns satisfies its truth predicate (TLC invariant on every enumerated state); every observed code "
@@ -573,7 +599,7 @@ def suite_object(ctx, maxhist, faults, small, backend="idn2", wrap=True, graph=T
     pool = pool or POOL
     poolvec = make_env(ctx, pool)
     if graph:   # the whole state graph: histories of every length; -coverage: every action of the object must have been taken
-        rg = tlc_ok(ctx, "MC_Eav", EAV_CFG % (backend, 0, "TRUE" if faults else "FALSE", "TRUE" if small else "FALSE"), timeout=3000,
+        rg = tlc_ok(ctx, "MC_Eav", EAV_CFG % (backend, 0, "1" if faults else "0", "TRUE" if small else "FALSE"), timeout=3000,
                     coverage=True)
         import re
         acts = {}
@@ -587,7 +613,7 @@ def suite_object(ctx, maxhist, faults, small, backend="idn2", wrap=True, graph=T
             if never:
                 raise Infra("vacuity: actions never taken in MC_Eav: %s" % never)
     if maxhist:
-        r = tlc_ok(ctx, "MC_Eav", EAV_CFG % (backend, maxhist, "TRUE" if faults else "FALSE", "TRUE"), timeout=3000)
+        r = tlc_ok(ctx, "MC_Eav", EAV_CFG % (backend, maxhist, "1" if faults else "0", "TRUE"), timeout=3000)
         sample_vectors(ctx, r["out"])
         vec = ctx.path("hist-%d-%s.vec" % (maxhist, backend))
         with open(vec, "w") as f:
@@ -616,8 +642,36 @@ def suite_object(ctx, maxhist, faults, small, backend="idn2", wrap=True, graph=T
         return res
 
 
-def suite_random_histories(ctx, nhist, nsteps, pool=None, wrap=True):
-    """direction B for the object: random legal histories drawn by the driver, validated statefully by Trace_Eav"""
+def pair_pool(ctx):
+    """addresses whose validation exercises whatever the library could remember from one call to the next: neighbours in the
+    TLD table, labels sharing long prefixes with listed TLDs, long internationalised names equal in their first 255 octets,
+    numeric fields that overflow followed by ordinary ones"""
+    import gen_tlddata, random
+    rows = [r[0] for r in gen_tlddata.rows(os.path.join(vlib.REPO, "data", "punycode.csv"))]
+    rng = random.Random(ctx.seed)
+    out = [B(x) for x in ("a@x.com", "a@x.zzzzz", "a@[1.2.3.4]", "a@[192.0.2.25000000000000000000]", "a@[IPv6:::ffff:1.2.3.4]",
+                          "a@[IPv6:1::100000000000000000000]", "a@[IPv6:1::2]", "a@[999999999999999999999.1.1.1]", "a@x.test", "a@localhost",
+                          "a@x.xn--p1ai", "a@\u043f\u043e\u0447\u0442\u0430.\u0440\u0444", "b@\u2615.de", "a@x..com", "A@X.COM")]
+    picks = sorted(rng.sample(range(1, len(rows) - 1), 3) + [rows.index("uk") if "uk" in rows else 1])
+    for i in picks:                                   # a row, its predecessor and its successor
+        out += [B("a@x." + rows[j]) for j in (i - 1, i, i + 1)]
+    longrows = [r for r in rows if len(r) >= 16]
+    for r in rng.sample(longrows, min(3, len(longrows))):
+        out += [B("a@x." + r), B("a@x." + r[:15] + "qq"), B("a@x." + r[:-1]), B("a@x." + r + "q")]
+    pn = "\u043f" * 36
+    for t in ("\u0440\u0444", "com", "xn--p1ai", "zzzzz"):
+        out.append(B("a@" + ".".join([pn] * 4) + "." + t))
+    out += [B("a" * 64 + "@x.com"), B("a" * 65 + "@x.com"), B("\u00e9" * 20 + "@x.com")]
+    seen, res = set(), []
+    for a in out:
+        if tuple(a) not in seen:
+            seen.add(tuple(a)); res.append(a)
+    return res
+
+
+def suite_random_histories(ctx, nhist, nsteps, pool=None, wrap=True, pairs=True):
+    """direction B for the object: random legal histories drawn by the driver, and scripted ones in which every ordered pair of
+    the pair pool occurs side by side, validated statefully by Trace_Eav"""
     pool = pool or (POOL + BIGPOOL)
     vec = ctx.path("rand-hist.vec")
     with open(vec, "w") as f:
@@ -626,6 +680,15 @@ def suite_random_histories(ctx, nhist, nsteps, pool=None, wrap=True):
                 continue
             f.write('"[8,%d,%d%s]"\n' % (i, len(a), "".join(",%d" % x for x in a)))
         f.write('"[22,%d,%d,%d]"\n' % (ctx.seed % 100000, nhist, nsteps))
+        if pairs:
+            pp = pair_pool(ctx)
+            base = len(pool) + 1
+            for i, a in enumerate(pp, base):
+                f.write('"[8,%d,%d%s]"\n' % (i, len(a), "".join(",%d" % x for x in a)))
+            seq = [x for i in range(len(pp)) for j in range(len(pp)) for x in (base + i, base + j)]
+            for rfc, tld in ((3, 1), (1, 1)) if ctx.quick() else ((3, 1), (1, 1), (0, 1), (2, 1), (3, 0)):
+                f.write('"[23,%d,%d,%d%s]"\n' % (rfc, tld, len(seq), "".join(",%d" % x for x in seq)))
+            nhist += 2 if ctx.quick() else 5
     b = build(ctx, "default", 0)
     res = replay(ctx, b, vec, "rand-hist", wrap=wrap)
     crash_violation(ctx, res, ["C06", ctx.prop])
@@ -655,7 +718,7 @@ def suite_random_histories(ctx, nhist, nsteps, pool=None, wrap=True):
                 case = {"event_no": i, "event": {k: (v if not isinstance(v, list) or len(v) < 120 else v[:120]) for k, v in ev.items()},
                         "text": vlib.bytes_to_text(ev["in"][:120]) if "in" in ev else None, "failed_clauses": clauses}
                 for c in clauses:
-                    for p in {"history": ["C13"], "legal": ["C13"], "policy": ["C08", "C15"], "decision": ["C01"], "message": ["C15"],
+                    for p in {"history": ["C13"], "function": ["C13", "C12", "C01"], "legal": ["C13"], "policy": ["C08", "C15"], "decision": ["C01"], "message": ["C15"],
                               "idn": ["C19", "C10"], "setup": ["C15"], "errstr": ["C13", "C15"], "heap": ["C06", "C13"]}.get(c, ["C13"]):
                         add_violation(ctx, p, "recorded object history rejected by Trace_Eav (clause %s)" % c, case)
     add_sample(ctx, open(tr).readlines()[min(5, n - 1)].strip()[:300])
@@ -768,6 +831,8 @@ def c06(ctx):
     vecs.append(("local3", tlc_ok(ctx, "MC_Local", cfg({"MaxLen": 4 if q else 5, "AlphaId": 3, "OptBits": 0}))))
     vecs.append(("sweep1", tlc_ok(ctx, "MC_LocalSweep", cfg({"Part": 1, "Full": "FALSE", "OptBits": 0}))))
     vecs.append(("sweep2", tlc_ok(ctx, "MC_LocalSweep", cfg({"Part": 2, "Full": "FALSE" if q else "TRUE", "OptBits": 0}))))
+    vecs.append(("idn2", tlc_ok(ctx, "MC_Idn", "CONSTANTS\n  Part = 2\n  MaxLabels = 1\nINIT Init\nNEXT Next\nINVARIANT Inv\nCHECK_DEADLOCK FALSE\n")))
+    vecs.append(("idn3", tlc_ok(ctx, "MC_Idn", "CONSTANTS\n  Part = 3\n  MaxLabels = 1\nINIT Init\nNEXT Next\nINVARIANT Inv\nCHECK_DEADLOCK FALSE\n")))
     vecs.append(("host", tlc_ok(ctx, "MC_Host", cfg({"MaxLen": 0, "Gen": 2, "OptBits": 0}))))
     vecs.append(("host1", tlc_ok(ctx, "MC_Host", cfg({"MaxLen": 5 if q else 6, "Gen": 1, "OptBits": 0}))))
     vecs.append(("ip", tlc_ok(ctx, "MC_Ip", cfg({"MaxLen": 0, "Gen": 2}))))
@@ -1114,7 +1179,7 @@ def c19(ctx):
     # allocation balance at every eav_free, outcome equal to a fresh object after every failure
     suite_random_histories(ctx, 20 if ctx.quick() else 200, 200)
     if not ctx.quick():     # every libidn2 code in the model (full pool), and longer fault-free histories around the failures
-        tlc_ok(ctx, "MC_Eav", EAV_CFG % ("idn2", 0, '"all"', "TRUE"), timeout=6000)
+        tlc_ok(ctx, "MC_Eav", EAV_CFG % ("idn2", 0, "2", "TRUE"), timeout=6000)
     return finish(ctx, "fault_enumeration",
                   "every libidn2 return code (31) injected at every conversion call of every history (TLC state graph with the converter as "
                   "nondeterministic environment); histories of MaxHist calls with a fault plan replayed with the converter replaced at link "
@@ -1160,7 +1225,7 @@ def c02(ctx):
     else:
         suite_local(ctx, 1, 5)
         suite_local(ctx, 2, 6)
-    suite_sweep(ctx, 1)
+    suite_sweep(ctx, 1, variants=("default", "uchar"))     # also where plain char is unsigned (ARM, PowerPC)
     suite_recorded(ctx, *((600, 900, 120) if ctx.quick() else (5000, 8000, 400)))
     return finish(ctx, "model_checking",
                   "TLC enumerates every local part of <= MaxLen symbols over the alphabet (one state each), checks M |= P "
@@ -1176,8 +1241,8 @@ def c03(ctx):
         suite_local(ctx, 4, 7)
         suite_local(ctx, 3, 5)
         suite_local(ctx, 1, 5)
-    suite_sweep(ctx, 1)
-    suite_sweep(ctx, 2, full=not ctx.quick())
+    suite_sweep(ctx, 1, variants=("default", "uchar"))
+    suite_sweep(ctx, 2, full=not ctx.quick(), variants=("default", "uchar"))
     suite_recorded(ctx, *((600, 900, 120) if ctx.quick() else (5000, 8000, 400)))
     return finish(ctx, "model_checking",
                   "TLC enumerates local parts over ASCII structure characters and 2/3/4-byte and ill-formed UTF-8 chunks; "
